@@ -114,6 +114,7 @@ pub fn run_case_opts<R: Reg>(ops: &[Op], prop: &str, excl: &Exclusions, slot: us
                     Op::RoundTrip { .. } => &["C01", "C05", "C06"],
                     Op::CloneTo { .. } | Op::CloneFrom { .. } => &["C01", "C05", "C10"],
                     Op::Query { .. } | Op::EntryQuery { .. } | Op::EntriesQuery { .. } => &["C01", "C05", "C03"],
+                    Op::ParQuery { .. } => &["C01", "C05", "C09"],
                     _ => &["C01", "C05", "C13"],
                 };
                 fail = Some(Fail { props, oracle: "panic", msg: format!("the library panicked during {}: {msg}", op.name()), step: interp.step });
@@ -173,6 +174,7 @@ pub fn nontrivial(prop: &str, s: &CaseStats) -> bool {
         "C04" => (s.drop_paths.count_ones() >= 3) && s.heap_column,
         "C05" => s.reallocs >= 1 && (s.shrink_freed + s.adoption + s.archetype_deleted >= 1) && s.wide_or_zst_present,
         "C06" => s.rt_with_free_and_2arch >= 1 && s.lockstep_issuing_ops >= 1,
+        "C09" => s.par_nontrivial >= 1,
         "C10" => (s.clone_dst_extra_arch + s.clone_src_empty_arch >= 1) && s.mutations_after_clone[0] >= 1 && s.mutations_after_clone[1] >= 1,
         "C13" => s.audits_after_change >= 1,
         "C15" => s.res_writes >= 1 && s.ops_run > s.res_writes as usize + 2,
@@ -212,6 +214,9 @@ fn add_classes(classes: &mut BTreeMap<String, u64>, s: &CaseStats) {
     add("query_optional_view_both_some_and_none", s.q_opt_both as u64);
     add("entries_subview_with_absent_super_view", s.q_entry_absent_super as u64);
     add("size_hints_checked", s.q_hints as u64);
+    add("par_query_cases", s.par_cases as u64);
+    add("par_query_cases_2plus_archetypes_long_multithreaded", s.par_nontrivial as u64);
+    add("par_mutable_addresses_checked_distinct", s.par_mut_addresses);
     add("noop_ops", s.noops as u64);
     for (k, v) in &s.op_counts {
         add(&format!("op_{k}"), *v as u64);
